@@ -505,6 +505,12 @@ class Interp:
             return obj
         if self.lenient:
             self.ex.note("opaque-call", f"{cls.__module__}.{cls.__qualname__}(...)")
+            hook = getattr(getattr(self, "ctx", None), "env", {}).get("construct_hook") if getattr(self, "ctx", None) is not None else None
+            if hook is not None:
+                out = hook(self, cls, list(args), dict(kwargs))
+                if out is not None:
+                    return out
+            self.event("construct", cls=cls.__qualname__, args=list(args), kwargs=dict(kwargs))
             return Opaque(f"{cls.__qualname__}()", cls=None)
         raise Unsupported(f"construction of unmodelled class {cls.__module__}.{cls.__qualname__}")
 
